@@ -1,4 +1,4 @@
-From Verif Require Import Lib.Base NodeDB.Spec NodeDB.Badger NodeDB.BadgerProofs NodeDB.SpecProofs NodeDB.Examples NodeDB.Final NodeDB.PathBadger NodeDB.PathBadgerProofs NodeDB.StructProofs.
+From Verif Require Import Lib.Base NodeDB.Spec NodeDB.Badger NodeDB.BadgerProofs NodeDB.SpecProofs NodeDB.Examples NodeDB.Final NodeDB.PathBadger NodeDB.PathBadgerProofs NodeDB.StructProofs NodeDB.Gc NodeDB.GcProofs.
 
 Theorem finalized_readable :
   forall h s v rid c,
@@ -132,3 +132,40 @@ Theorem structural_side_conditions_satisfiable :
   no_lone_sharing (b_run bdb0 (firstn 5 h_prune_shared)) 1 = false.
 Proof. exact structural_conditions_satisfiable. Qed.
 Print Assumptions structural_side_conditions_satisfiable.
+
+Theorem gc_at_earliest_changes_no_read :
+  forall D st st', gc_rel D st st' -> forall n t, D <= t -> best n t st' = best n t st.
+Proof. exact gc_best. Qed.
+Print Assumptions gc_at_earliest_changes_no_read.
+
+Theorem gc_keeps_retained_roots :
+  forall d st', gc_rel (d_earliest (b_meta d)) (b_store d) st' ->
+  let d' := mkb (b_meta d) (b_aux d) st' in
+  (forall v rid, b_status d' v rid = b_status d v rid) /\ (inv d -> inv d').
+Proof. exact gc_keeps_retained_roots_l. Qed.
+Print Assumptions gc_keeps_retained_roots.
+
+Theorem gc_discard_too_high_refuted :
+  let d := b_run bdb0 h_gc in
+  ok_run bdb0 h_gc = true /\ d_earliest (b_meta d) = 1 /\
+  b_status d 1 3 = 1 /\ b_status d 2 4 = 1 /\
+  b_status (b_gc 1 d) 1 3 = 1 /\ b_status (b_gc 1 d) 2 4 = 1 /\
+  b_status (b_gc 2 d) 1 3 = 2 /\ b_status (b_gc 2 d) 2 4 = 1.
+Proof. exact gc_discard_too_high_refuted_l. Qed.
+Print Assumptions gc_discard_too_high_refuted.
+
+Theorem pathbadger_gc_keeps_retained_roots :
+  forall d st', pgc_rel (p_earliest d) (p_fin d) st' ->
+  let d' := mkp (p_earliest d) (p_last d) (p_rootkeys d) st' (p_pend d) (p_next d) (p_pseq d) (p_upd d) (p_ghost d) in
+  forall v rid, p_status d' v rid = p_status d v rid.
+Proof. exact pathbadger_gc_keeps_retained_roots_l. Qed.
+Print Assumptions pathbadger_gc_keeps_retained_roots.
+
+Theorem pathbadger_gc_discard_too_high_refuted :
+  let d := p_run pdb0 h_pgc in
+  p_accepted pdb0 h_pgc = true /\ p_earliest d = 1 /\
+  p_status d 1 3 = 1 /\ p_status d 2 4 = 1 /\
+  p_status (p_gc 1 d) 1 3 = 1 /\ p_status (p_gc 1 d) 2 4 = 1 /\
+  p_status (p_gc 2 d) 1 3 = 2 /\ p_status (p_gc 2 d) 2 4 = 1.
+Proof. exact pathbadger_gc_discard_too_high_refuted_l. Qed.
+Print Assumptions pathbadger_gc_discard_too_high_refuted.
